@@ -1,4 +1,4 @@
-import Varpulis.Model.EventFile
+import Varpulis.Model.EventPayload
 import Varpulis.Driver.Util
 /-! `vmodel eventfile`: runs both reader models on the C46 file cases (payload parser = the oracle
 table sent by the harness), compares with the real readers, and judges the property itself
@@ -21,6 +21,34 @@ def unhex (s : String) : Option String :=
     | a :: b :: rest => do go (acc.push (UInt8.ofNat ((← hexVal a) * 16 + (← hexVal b)))) rest
     | _ => none
   (go ByteArray.empty s.toList).bind String.fromUTF8?
+
+def hexDigit (n : Nat) : Char := if n < 10 then Char.ofNat (48 + n) else Char.ofNat (87 + n)
+def hexOf (s : List Char) : String :=
+  if s.isEmpty then "-" else
+  String.ofList ((String.ofList s).toUTF8.toList.flatMap fun b => [hexDigit (b.toNat / 16), hexDigit (b.toNat % 16)])
+
+/-- the harness's canonical rendering of a value / event, float values masked as `F` -/
+partial def canonVal : Val → String
+  | .null => "n"
+  | .bool b => if b then "b1" else "b0"
+  | .int i => s!"i{i}"
+  | .float _ => "F"
+  | .str s => "s" ++ hexOf s
+  | .arr items => "a(" ++ "/".intercalate (items.map canonVal) ++ ")"
+
+def canonEvt (e : Evt) : String :=
+  "T" ++ hexOf e.type ++ String.join (e.fields.map fun (k, v) => ";" ++ hexOf k ++ ":" ++ canonVal v)
+
+/-- mask the bit pattern of float values (`f` + 16 hex digits at a value position) in the
+implementation's rendering -/
+def maskFloats (s : String) : String :=
+  let rec go (atValue : Bool) (skip : Nat) (acc : List Char) : List Char → List Char
+    | [] => acc.reverse
+    | c :: rest =>
+      if skip > 0 then go false (skip - 1) acc rest
+      else if atValue && c == 'f' then go false 16 ('F' :: acc) rest
+      else go (c == ':' || c == '(' || c == '/' || c == '~') 0 (c :: acc) rest
+  String.ofList (go false 0 [] s.toList)
 
 def missing : String := "?MISSING"
 
@@ -66,7 +94,14 @@ def step (st : St) (line : String) : St × String :=
       let r : Option String := match words impl with
         | ["ok", ev] => some ev
         | _ => none
-      ({ st with table := (payload, r) :: st.table }, "ok")
+      let st' := { st with table := (payload, r) :: st.table }
+      -- `.evt` payloads: the grammar model must produce the same event (type, field order, values)
+      if payload.toList.head? == some '{' || impl == "panic" then (st', "ok")
+      else
+        let model := match parseEventLine payload.toList with
+          | some e => "ok " ++ canonEvt e
+          | none => "err"
+        (st', verdict model (maskFloats impl))
     | none => (st, "BADLINE")
   | ["file", h] =>
     match unhex h, words impl with
